@@ -141,7 +141,9 @@ let run (_prefix : string) (cfg : config) (parts : string list) (_src : string)
     on parts "semtie" (fun () ->
       match ast_in, ast_out with
       | Some i, Some o ->
-          let r = match sem_tie (var_prefix cfg) (plus_name cfg) i o with
+          let r = match sem_tie (var_prefix cfg) (plus_name cfg)
+                          (fun m -> match csi_get cfg m with Some _ -> true | None -> false)
+                          (fun m -> allows_literal_callers cfg m) i o with
             | TieNotCore -> "not-core" | TieNoOutput -> "no-output" | TieAgree -> "agree" | TieDiffer -> "differ" in
           [ ("semtie", JS r) ]
       | _, _ -> []) in
